@@ -11,8 +11,8 @@ PROFILES = ("dev",)
 # C16_ORIG=1 selects the model of the code as it was before the two repairs (reversed remove comparator,
 # data_start = pos + 2 on CRLF): used to reproduce the defects through the harness on the unrepaired tree.
 ORIG = bool(os.environ.get("C16_ORIG"))
-REG = "reg.ops_orig" if ORIG else "reg.ops"
-PARSE = "present.parse_orig" if ORIG else "present.parse"
+REG = "reg.ops_v0" if ORIG else "reg.ops"
+PARSE = "present.parse_v0" if ORIG else "present.parse"
 
 THEOREMS = []   # filled in below (kept at the end of the file for readability)
 
